@@ -192,5 +192,5 @@ def run(ctx):
     if not samefile:
         ctx.count('exclusions', 'no C function called only from its own file generated '
                                 '(witness:staticFunction-missing-with-builddir re-observed)')
-    n = ctx.n(60, 1500)
+    n = ctx.n(48, 1500)
     pmap(lambda i: _case(ctx, i, chains, samefile), list(range(n)), workers=6 if ctx.quick() else 10)
